@@ -34,7 +34,22 @@ _SRV_ASSUME = [
 
 K1_C05 = ['normalize', 'timerange', 'Model.memoize', 'Model.equation', 'SdSimulation.__simulate']
 
+K1_C08 = ['SdElement.generate_function', 'SdElement.Element.equation.setter', 'SdElement.Stock.equation.setter',
+          'SdElement.Flow.equation.setter', 'SdElement.Constant.equation.setter', 'SdElement.Stock.initial_value.setter',
+          'Scenario.reset_cache', 'Model.reset_cache', 'Model.memoize']
+
 PROPS = {
+    'C08': dict(
+        mods=['contracts.c08_memo', 'contracts.c05_grid'], k1=K1_C08, level='proof',
+        harness='verif/native/c08_harness.py', harness_budget=(15, 90),
+        explanation='cache-invalidation postconditions: after Element/Stock/Flow/Constant.equation setters, Stock.initial_value setter, '
+                    'Model.reset_cache and SimulationScenario.reset_cache EVERY memo table is empty; generate_function installs the new function and '
+                    'empties the own memo; Model.memoize writes a key only when absent and returns the stored value otherwise (single value per '
+                    '(element, time), stochastic or not, whichever equations are requested in whichever order)',
+        assumptions=['array expansion helper _handle_arrayed and the text generators do not write memo entries (assumed contracts; generators are under K2 in C01)',
+                     'eval(text) treated as an opaque value; Python semantics of the subset; SINGLE-THREADED execution'],
+        not_decided=['NOT DECIDED: all schedules of the per-equation worker threads (SdSimulation.__simulate_equations): the check-then-compute-then-store window in memoize is a data race a sequential verifier cannot see',
+                     'not decided: "equals a freshly built model" as a relation; it follows on paper from empty memo + C01 and is exercised by the native harness']),
     'C05': dict(
         mods=['contracts.c05_grid'], k1=K1_C05, level='proof', engines=['contracts.c05_extra'],
         harness='verif/native/c05_harness.py', harness_budget=(20, 120), always_harness=False,
